@@ -534,7 +534,7 @@ func OracleLeaks(prop string, v *View) []Violation {
 			}
 			out = append(out, viol(prop, "deployment-open-at-return", "", "Execute of %s returned while deployments %v (%v) had not been closed", c.Name, c.OpenAtReturn, srcs))
 		}
-		if len(c.LeakedAtReturn) > 0 && len(r.Clients) == 1 {
+		if len(c.LeakedAtReturn) > 0 {
 			out = append(out, viol(prop, "goroutine-alive-at-return", leakShape(c.LeakedAtReturn), "Execute of %s returned while engine goroutines were still alive: %s", c.Name, strings.Join(c.LeakedAtReturn, " | ")))
 		}
 	}
